@@ -394,6 +394,7 @@ void Ex::ro(const Opnd &o, const std::string &name) {
 void Ex::wr(const Opnd &o, const std::string &name) {
   std::string why;
   if (!o.outside_intact(&why)) v.fail("operand " + name + ": " + why);
+  if (o.M) v.raw(o.read().hash());  // everything written joins the raw digest (compared between runs of one case by C10)
 }
 void Ex::expect(const Mat &got, const Mat &want, const std::string &what) {
   if (got.m != want.m || got.n != want.n) {
